@@ -62,6 +62,10 @@ class _Found(Exception):
     pass
 
 
+class _Stop(Exception):
+    pass
+
+
 def shrink(ctx: ctxmod.Ctx, camp: Campaign, key: str, n: int, seed: int, budget_s: float = 60.0):
     """Search again at the same seed for a case landing in bucket ``key`` and let Hypothesis shrink it.
 
@@ -89,10 +93,12 @@ def shrink(ctx: ctxmod.Ctx, camp: Campaign, key: str, n: int, seed: int, budget_
                 seen[d] = spec
                 order.append(d)
             raise _Found()
+        if time.time() - t0 > budget_s:
+            raise _Stop()  # budget used up: end the (possibly long) generation phase quickly
 
     try:
         test()
-    except _Found:
+    except (_Found, _Stop):
         pass
     except Exception:  # flaky or other library complaint: fall back on the smallest seen
         pass
